@@ -16,15 +16,7 @@ HERE = os.path.dirname(os.path.abspath(__file__))
 sys.path.insert(0, HERE)
 os.environ.setdefault("PYTHONHASHSEED", "0")
 
-MODULES = {
-    "C01": "chk_tok", "C02": "chk_tok", "C03": "chk_tok", "C04": "chk_tok", "C08": "chk_tok",
-    "C20": "chk_reuse",
-    "C05": "chk_split", "C06": "chk_split", "C07": "chk_energy", "C09": "chk_split",
-    "C10": "chk_reader", "C19": "chk_reader", "C11": "chk_sources",
-    "C12": "chk_workers", "C13": "chk_workers", "C14": "chk_workers",
-    "C15": "chk_cli",
-    "C16": "chk_region", "C17": "chk_region", "C18": "chk_region",
-}
+from vlib.common import MODULES  # noqa: E402
 
 
 def main():
